@@ -71,6 +71,20 @@ def make_jobs(ctx, lib, info, nrand):
                      'Ts': temps_for(rng, [byname[m[0]].get('range') for m in mp if m[0] in byname]),
                      'props': PROPS, 'predecomp': 'CC' if rng.random() < 0.7 else None,
                      'kind': kind})
+        # a twin asked of the SAME library object right afterwards: the same descriptors, one count changed
+        # (-1 <-> -2, 1 <-> 2, +-0.0 ...): every estimate is the weighted sum of ITS OWN mapping
+        if kind == 'random' and rng.random() < 0.5:
+            tw = [list(m) for m in mp]
+            i = rng.randrange(len(tw))
+            c = tw[i][1]
+            tw[i][1] = {-1: -2, -2: -1, 1: 2, 2: 1, 0: 0.0}.get(c, -2 if rng.random() < 0.3 else c + 1)
+            if rng.random() < 0.5:
+                # ... and a first twin with -1 so that the pair (-1, -2) occurs
+                t0 = [list(m) for m in tw]
+                t0[i][1] = -1
+                tw[i][1] = -2
+                jobs.append(dict(jobs[-1], mapping=t0, kind='random'))
+            jobs.append(dict(jobs[-1], mapping=tw, kind='random'))
     return jobs
 
 
